@@ -149,6 +149,15 @@ func (w *World) runOp(i int, op Op) {
 			p.ackAdd = false // GC may collect it at any time from now on
 			p.poolIntact = false
 		}
+	case "move":
+		if p != nil && p.exists {
+			w.killSandbox(p)
+			w.run.S.Log("kubelet", "pod %s rescheduled to another node", p.spec.Name)
+			w.movePodObject(p)
+			p.ackAdd = false
+			p.poolIntact = false
+			w.run.Probe("pod-moved-to-other-node")
+		}
 	case "recreate":
 		if p != nil && !p.exists {
 			w.createPodObject(p)
@@ -569,7 +578,7 @@ func (w *World) viewPod(p *podState) *podView {
 			v.cid = *rec.ContainerID
 		}
 		for _, r := range rec.Resources {
-			v.v4, v.v6 = r.IPv4, r.IPv6
+			v.v4, v.v6 = recIPs(r)
 		}
 	}
 	v.owned = ownedBy(w.poolStatus(), ns+"/"+p.spec.Name)
